@@ -423,17 +423,17 @@ class Offsets:
         if isinstance(e, ast.List) and not e.elts:
             self.nacc += 1
             return Acc(f"list#{self.nacc}")
-        if isinstance(e, (ast.ListComp, ast.GeneratorExp)) and len(e.generators) == 1 and not e.generators[0].ifs and isinstance(e.generators[0].target, ast.Name):
+        if isinstance(e, (ast.ListComp, ast.GeneratorExp)) and len(e.generators) == 1 and not e.generators[0].ifs:
             g = e.generators[0]
-            rng = self._range(g.iter, env)
-            if rng is not None:
+            ib = self._iter_bind(g.target, g.iter, env)
+            if ib is not None:
                 self.nacc += 1
                 acc = Acc(f"list#{self.nacc}")
                 env2 = dict(env)
                 env2["__pending__"] = []
-                env2[g.target.id] = Lin(ladd(rng[0], lmul(rng[1], ls("k"))))
+                env2.update(ib[0])
                 val = self.ev(e.elt, env2)
-                env.setdefault("__pending__", []).append(Loop("for", rng[2], None, {}, {}, list(env2["__pending__"]) + [(acc.name, None, val)], []))
+                env.setdefault("__pending__", []).append(Loop("for", ib[1], None, {}, {}, list(env2["__pending__"]) + [(acc.name, None, val)], []))
                 return acc
             return Opaque(norm_text(e)[:80])
         if isinstance(e, ast.DictComp) and len(e.generators) == 1 and not e.generators[0].ifs and isinstance(e.generators[0].target, ast.Name):
@@ -486,6 +486,22 @@ class Offsets:
             cnt = lc(-(-ks // k)) if ks is not None else ls(f"cd({lfmt(span)},{k})")
             return vs[0].l, vs[2].l, cnt
         return vs[0].l, vs[2].l, ls(f"cdv({lfmt(span)};{lfmt(vs[2].l)})")
+
+    def _iter_bind(self, tgt, it, env):
+        """({name: Lin}, count) for `for <tgt> in <it>` over range(...) / a range held in a local / enumerate(of those), else None"""
+        idx = None
+        if isinstance(it, ast.Call) and dotted(it.func) == "enumerate" and 1 <= len(it.args) <= 2 and isinstance(tgt, ast.Tuple) and len(tgt.elts) == 2 and all(isinstance(x, ast.Name) for x in tgt.elts):
+            first = self.ev(it.args[1], env) if len(it.args) == 2 else next((self.ev(k.value, env) for k in it.keywords if k.arg == "start"), Lin({}))
+            if not isinstance(first, Lin):
+                return None
+            idx, it, tgt = (tgt.elts[0].id, first.l), it.args[0], tgt.elts[1]
+        rng = self._range(it, env) if isinstance(tgt, ast.Name) else None
+        if rng is None:
+            return None
+        out = {tgt.id: Lin(ladd(rng[0], lmul(rng[1], ls("k"))))}
+        if idx is not None:
+            out[idx[0]] = Lin(ladd(idx[1], ls("k")))
+        return out, rng[2]
 
     def _maybe_negative(self, l: dict) -> bool:
         """positions are built from non-negative symbols; a negative coefficient or constant could mean 'from the end'"""
@@ -842,21 +858,13 @@ class Offsets:
                 syms[v] = f"@{v}"
                 henv[v] = Bf(ls(f"@{v}"), None)
         if isinstance(st, ast.For):
-            it, tgt, idx = st.iter, st.target, None
-            if isinstance(it, ast.Call) and dotted(it.func) == "enumerate" and 1 <= len(it.args) <= 2 and isinstance(tgt, ast.Tuple) and len(tgt.elts) == 2 and all(isinstance(x, ast.Name) for x in tgt.elts):
-                first = self.ev(it.args[1], env) if len(it.args) == 2 else next((self.ev(k.value, env) for k in it.keywords if k.arg == "start"), Lin({}))
-                if not isinstance(first, Lin):
-                    raise Unsupported("enumerate() start")
-                idx, it, tgt = (tgt.elts[0].id, first.l), it.args[0], tgt.elts[1]
-            rng = self._range(it, env) if isinstance(tgt, ast.Name) else None
-            if rng is None:
+            ib = self._iter_bind(st.target, st.iter, env)
+            if ib is None:
                 raise Unsupported(f"for over {norm_text(st.iter)[:40]}")
-            count = rng[2]
-            henv[tgt.id] = Lin(ladd(rng[0], lmul(rng[1], ls("k"))))
-            syms.pop(tgt.id, None)
-            if idx is not None:
-                henv[idx[0]] = Lin(ladd(idx[1], ls("k")))
-                syms.pop(idx[0], None)
+            count = ib[1]
+            for nm, v in ib[0].items():
+                henv[nm] = v
+                syms.pop(nm, None)
             head = None
         else:
             head = self.cond(self.ev(st.test, henv))
